@@ -30,7 +30,7 @@ SOUP = [b'BEGIN:VCALENDAR', b'END:VCALENDAR', b'BEGIN:VEVENT', b'END:VEVENT', b'
         b'RRULE:FREQ=YEARLY;BYMONTH=3;BYDAY=-1SU', b'RRULE:FREQ=XYZ', b'RRULE:;;=;', b'RRULE:FREQ=DAILY;UNTIL=20200101/20200102',
         b'RDATE:20200101T000000,20200102', b'RDATE;VALUE=PERIOD:20200101T000000Z/PT1H', b'RDATE;VALUE=PERIOD:20200101T000000Z/100000',
         b'EXDATE;TZID=X:20200101T000000', b'FREEBUSY:20200101T000000/20200101T010000Z', b'FREEBUSY:20200101/20200102',
-        b'FREEBUSY:a/b,c', b'TZOFFSETFROM:+0100', b'TZOFFSETTO:+0200', b'TZOFFSETFROM:+2500', b'TZOFFSETTO:-000115',
+        b'FREEBUSY:a/b,c', b'FREEBUSY:20200101T000000Z/PT1H,c', b'FREEBUSY:20200101T000000Z/PT1H,20200102T000000Z/20200101T000000Z', b'TZOFFSETFROM:+0100', b'TZOFFSETTO:+0200', b'TZOFFSETFROM:+2500', b'TZOFFSETTO:-000115',
         b'TZNAME:CET', b'TRIGGER:-PT15M', b'TRIGGER;VALUE=DATE-TIME:20200101T000000Z', b'TRIGGER;RELATED=END:P1D',
         b'REPEAT:x', b'REPEAT:2', b'GEO:1;2', b'GEO:1', b'GEO:a;b', b'PRIORITY:1.5', b'SEQUENCE:', b'X-COMMENT:x',
         b'SUMMARY:x', b'SUMMARY;LANGUAGE=:x', b'ATTENDEE;CN="a:mailto:x', b';', b':', b'A', b'A;B', b'A;B=:', b'=:',
@@ -133,7 +133,9 @@ def check_total(ctx, data, provider):
 
 BAD_LINES = [b'DTSTART:2020', b'DTSTART;TZID=Europe/Berlin:x', b'DURATION:xyz', b'RRULE:FREQ=XYZ', b'GEO:1', b'PRIORITY:high',
              b'A;B', b'SUMMARY;LANGUAGE=\x01:x', b'TRIGGER:never', b'RDATE:20200101T000000,nonsense', b'DTEND;VALUE=DATE:202001',
-             b'X-A;=:', b'TZOFFSETFROM:+2500', b'SEQUENCE:1.5', b';', b'FREEBUSY:x/y']
+             b'X-A;=:', b'TZOFFSETFROM:+2500', b'SEQUENCE:1.5', b';', b'FREEBUSY:x/y',
+             b'FREEBUSY:20200101T000000Z/PT1H,not-a-period', b'FREEBUSY:20200101T000000Z/PT1H,20200102T000000Z/20200101T000000Z',
+             b'RDATE:20200101T000000,20200102T000000,x', b'EXDATE;TZID=Europe/Berlin:20200101T000000,bad']
 
 
 def really_bad(line):
